@@ -354,6 +354,11 @@ def run(ctx):
     run_r7(ctx, r7)
     r6 = ctx.rule("C10-R6", "look-ahead loops at a varying offset live in the token functions only (one item each); parser-level loops consume as they go", floor=1)
     run_r6(ctx, r6)
+    # R8: refills happen on demand of a look-ahead only: code outside the reader does not call request_more / request /
+    # set_chunk_size on its own initiative (a scanner that refills before it looked keeps a chunk more per call): C01-R2
+    from .c01 import run_r2 as c01_r2
+    r8 = ctx.rule("C10-R8", "request_more / request / set_chunk_size are not called from parser or scanner code (shared with C01-R2)", floor=1)
+    c01_r2(ctx, r8)
     # R5: the stack is memory too: a parser that calls itself per skipped line or per item grows with the input
     from .c05 import run_r1 as c05_r1
     r5 = ctx.rule("C10-R5", "no recursion among the workspace's function instances: stack use does not grow with the number of items (shared with C05-R1)", floor=1)
